@@ -81,7 +81,7 @@ type violationMsg struct {
 const maxFP = 40000
 
 func caseFor(ck *Check, seed uint64, tier string, i int) *Case {
-	cs := mix(seed, ck.ID, ck.Build, i)
+	cs := mix(seed, ck.ID, ck.Build, ck.Variant, i)
 	r := NewRand(cs)
 	profile := ""
 	if len(ck.Profiles) > 0 {
@@ -90,6 +90,7 @@ func caseFor(ck *Check, seed uint64, tier string, i int) *Case {
 	c := ck.Gen(r, tier, profile)
 	c.Prop = ck.ID
 	c.Build = ck.Build
+	c.Variant = ck.Variant
 	if c.Profile == "" {
 		c.Profile = profile
 	}
@@ -111,9 +112,9 @@ func workerMain(t *testing.T) {
 	seed := verifSeed()
 	digests := os.Getenv("VERIF_DIGESTS") != ""
 	known := loadKnown()
-	curPath := filepath.Join(os.Getenv("VERIF_DATA"), fmt.Sprintf("cur-%s-%d.json", strings.ReplaceAll(ck.ID+ck.Build, "/", "_"), k))
+	curPath := filepath.Join(os.Getenv("VERIF_DATA"), fmt.Sprintf("cur-%s-%d.json", strings.ReplaceAll(ck.key(), "/", "_"), k))
 
-	sum := &workerSummary{Check: ck.ID + "/" + ck.Build, Stats: map[string]int64{}, Known: map[string]int{}}
+	sum := &workerSummary{Check: ck.key(), Stats: map[string]int64{}, Known: map[string]int{}}
 	fps := map[string]bool{}
 	orders := map[string]bool{}
 	states := map[string]bool{}
@@ -232,9 +233,9 @@ func oneMain(t *testing.T) {
 		fmt.Fprintln(os.Stderr, err)
 		os.Exit(2)
 	}
-	ck := checks[c.Prop+"/"+c.Build]
+	ck := checks[caseKey(&c)]
 	if ck == nil {
-		fmt.Fprintf(os.Stderr, "unknown check %s/%s\n", c.Prop, c.Build)
+		fmt.Fprintf(os.Stderr, "unknown check %s\n", caseKey(&c))
 		os.Exit(2)
 	}
 	o := ck.Run(t, &c)
@@ -266,9 +267,9 @@ func replayMain(t *testing.T) int {
 		fmt.Fprintln(os.Stderr, err)
 		return 2
 	}
-	ck := checks[rf.Case.Prop+"/"+rf.Case.Build]
+	ck := checks[caseKey(rf.Case)]
 	if ck == nil {
-		fmt.Fprintf(os.Stderr, "unknown check %s/%s\n", rf.Case.Prop, rf.Case.Build)
+		fmt.Fprintf(os.Stderr, "unknown check %s\n", caseKey(rf.Case))
 		return 2
 	}
 	var o *Outcome
@@ -521,7 +522,7 @@ func driverMain(t *testing.T) int {
 					gmp = "8"
 					gorace = fmt.Sprintf("halt_on_error=0 log_path=%s", filepath.Join(os.Getenv("VERIF_DATA"), fmt.Sprintf("race-%s-%d", ck.ID, k)))
 				}
-				cmd.Env = append(os.Environ(), "VERIF_MODE=worker", "VERIF_CHECK="+ck.ID+"/"+ck.Build,
+				cmd.Env = append(os.Environ(), "VERIF_MODE=worker", "VERIF_CHECK="+ck.key(),
 					fmt.Sprintf("VERIF_WORKER=%d", k), fmt.Sprintf("VERIF_NWORKERS=%d", nw),
 					fmt.Sprintf("VERIF_BUDGET_MS=%d", budgetS*1000), "VERIF_TIER="+tier, "GOMAXPROCS="+gmp,
 					fmt.Sprintf("VERIF_SEED=%d", seed), "GORACE="+gorace)
@@ -575,7 +576,7 @@ func driverMain(t *testing.T) int {
 				if !gotSummary {
 					all := stdout.String() + "\n" + stderr.String()
 					frame := panicFrame(all)
-					curPath := filepath.Join(os.Getenv("VERIF_DATA"), fmt.Sprintf("cur-%s-%d.json", strings.ReplaceAll(ck.ID+ck.Build, "/", "_"), k))
+					curPath := filepath.Join(os.Getenv("VERIF_DATA"), fmt.Sprintf("cur-%s-%d.json", strings.ReplaceAll(ck.key(), "/", "_"), k))
 					cb, cerr := os.ReadFile(curPath)
 					if frame != "" && cerr == nil {
 						var c Case
@@ -592,12 +593,12 @@ func driverMain(t *testing.T) int {
 						return
 					}
 					trouble = true
-					fmt.Fprintf(os.Stderr, "worker %d of %s/%s failed (%v) without an attributable panic:\n%s\n", k, ck.ID, ck.Build, err, tail(all, 6000))
+					fmt.Fprintf(os.Stderr, "worker %d of %s failed (%v) without an attributable panic:\n%s\n", k, ck.key(), err, tail(all, 6000))
 				}
 			}(k)
 		}
 		wg.Wait()
-		perVariant[ck.Build] = map[string]interface{}{"runs": vsum.Runs, "budget_s": budgetS, "workers": nw}
+		perVariant[strings.TrimPrefix(ck.key(), ck.ID+"/")] = map[string]interface{}{"runs": vsum.Runs, "budget_s": budgetS, "workers": nw}
 	}
 	// pinned replays of open known findings: each KNOWN-FINDING line is backed by a current reproduction
 	for i := range known {
@@ -614,7 +615,7 @@ func driverMain(t *testing.T) int {
 		if json.Unmarshal(b, &rf) != nil || rf.Case == nil {
 			continue
 		}
-		ck := checks[rf.Case.Prop+"/"+rf.Case.Build]
+		ck := checks[caseKey(rf.Case)]
 		if ck == nil || bins[ck.Build] == "" {
 			continue
 		}
@@ -786,7 +787,7 @@ func selftestMain() int {
 							if ck.Build == "lockstep" && gmp == "1" {
 								gmp = "2"
 							}
-							cmd.Env = append(os.Environ(), "GORACE=halt_on_error=0 log_path="+filepath.Join(os.Getenv("VERIF_DATA"), "race-selftest"), "VERIF_MODE=worker", "VERIF_CHECK="+ck.ID+"/"+ck.Build,
+							cmd.Env = append(os.Environ(), "GORACE=halt_on_error=0 log_path="+filepath.Join(os.Getenv("VERIF_DATA"), "race-selftest"), "VERIF_MODE=worker", "VERIF_CHECK="+ck.key(),
 								fmt.Sprintf("VERIF_WORKER=%d", k), "VERIF_NWORKERS=4", "VERIF_BUDGET_MS=600000",
 								fmt.Sprintf("VERIF_MAXRUNS=%d", nruns), "VERIF_TIER=quick", "GOMAXPROCS="+gmp, "VERIF_DIGESTS=1", "VERIF_NOSHRINK=1",
 								fmt.Sprintf("VERIF_DATA=%s", os.Getenv("VERIF_DATA")))
@@ -820,8 +821,8 @@ func selftestMain() int {
 					}
 				}
 			}
-			fmt.Printf("selftest %s/%s: %d runs x %d repetitions (GOMAXPROCS %s): %d divergent, %d digests collected\n",
-				ck.ID, ck.Build, nruns, len(reps), strings.Join(reps, ","), div, len(results[0]))
+			fmt.Printf("selftest %s: %d runs x %d repetitions (GOMAXPROCS %s): %d divergent, %d digests collected\n",
+				ck.key(), nruns, len(reps), strings.Join(reps, ","), div, len(results[0]))
 			if div > 0 || len(results[0]) < nruns {
 				bad++
 			}
